@@ -9,8 +9,9 @@ import sys
 sys.path.insert(0, '.')
 import vlib
 from props.common import SIMDRV_SRC
-exe, err = vlib.build_harness("simdrv", SIMDRV_SRC)
-if exe is None:
-    print(err); sys.exit(1)
-print("setup ok:", exe)
+for name, src in [("simdrv", SIMDRV_SRC), ("h_http", ["h_http.cpp"]), ("h_pcap", ["h_pcap.cpp"])]:
+    exe, err = vlib.build_harness(name, src)
+    if exe is None:
+        print(err); sys.exit(1)
+    print("setup ok:", exe)
 PY
